@@ -231,6 +231,10 @@ def dispatch (fields : List String) : Result :=
         | some ms => if ms > 65000 then "fail:C08:over-60s-budget-cpu-bound-search" else "ok"
         | none => "fail:C08:unparsable"
     { model := impl, oracle := v, tags := s!"real/{fam}/" ++ ((parts.headD "").splitOn " ").headD "" ++ (if (elapsed.getD 0) ≥ 59000 then "/at-budget" else "/early") }
+  | ["server.reload-live", variant, impl] =>
+    -- reloads while the real binary is busy (judged by the harness from the answers it collected)
+    let v := (impl.splitOn " ").headD "?"
+    { model := impl, oracle := if v == "ok" then "ok" else v, tags := s!"reload-live/{variant}" }
   | ["server.fwd", pm, _, kind, impl] =>
     -- the real binary in forwarding mode against a mock forwarder and a decoy port: the verdict is
     -- computed by the harness from what reached the two sockets and from the reply
